@@ -67,6 +67,12 @@ func c17Pinned(name string) c17Case {
 		g := vFile{Language: "go", Package: "p", Builders: []map[string]any{{"promote_options_to_constructor": map[string]any{"by_object": "S", "options": []string{"flags"}}}}}
 		cs.files = []vFile{f, g}
 		return cs
+	case "append-then-map-to-index":
+		s.AddObject(ast.NewObject("p", "M", ast.NewStruct(ast.NewStructField("ms", ast.NewArray(ast.NewMap(ast.String(), ast.String()))))))
+		f.Options = []map[string]any{
+			{"array_to_append": map[string]any{"by_name": "M.ms"}},
+			{"map_to_index": map[string]any{"by_name": "M.ms"}},
+		}
 	case "compose-then-initialize":
 		// the composed builder starts from a by-value copy of the source builder's Constructor: both
 		// slices share one backing array with spare capacity (3 constants appended one by one: cap 4)
@@ -91,4 +97,4 @@ func c17Pinned(name string) c17Case {
 	return cs
 }
 
-var c17PinnedNames = []string{"dup-option-default", "dup-builder-default", "dismissed", "rename-args-constraint", "promote-array-to-append", "merge-rename-arguments", "map-index-unfold", "sf-opts-after-append", "add-assignment-array-to-append", "map-index-promote"}
+var c17PinnedNames = []string{"dup-option-default", "dup-builder-default", "dismissed", "rename-args-constraint", "promote-array-to-append", "merge-rename-arguments", "map-index-unfold", "sf-opts-after-append", "add-assignment-array-to-append", "map-index-promote", "append-then-map-to-index"}
